@@ -105,7 +105,12 @@ def run(ctx):
         dist["by_shutoff"][o["shutoff"]] = dist["by_shutoff"].get(o["shutoff"], 0) + 1
         n = len(r["feed_demand"])
         overridden = "MINIMUM_PERCENT_FED_BEFORE_NONHUMAN_CONSUMPTION_ALLOWED" in o
-        terms.append(f"dispatch_ok {cstr(o['shutoff'])} {cnat(n)} {cnat(r['feed_months'])} {cnat(r['biofuel_months'])} "
+        # the dispatcher first applies alter_scenario_if_known_to_fail (SLV / ALB / ECU with certain option sets are silently
+        # rewritten to shutoff: immediate - modelled and proved about in C13); the table is compared with the EFFECTIVE value
+        eff = r.get("effective_shutoff", o["shutoff"])
+        if eff != o["shutoff"]:
+            dist.setdefault("rewritten_by_known_to_fail_table", []).append([r["iso3"], o["shutoff"], eff])
+        terms.append(f"dispatch_ok {cstr(eff)} {cnat(n)} {cnat(r['feed_months'])} {cnat(r['biofuel_months'])} "
                      f"{fq(r['threshold'])} {'true' if overridden else 'false'}")
         nontriv = len(r["rounds"]) == 3 and (sum(r["feed_demand"]) + sum(r["biofuel_demand"])) > 0
         ctx.count(("run", r["iso3"], json.dumps({k: v for k, v in o.items() if k != "title"}, sort_keys=True)), nontrivial=nontriv)
